@@ -1005,6 +1005,12 @@ def solve(objfun, x0, h=None, lh=None, prox_uh=None, argsf=(), argsh=(), argspro
     default_growing_method_set_by_user = user_params is not None and \
         ('growing.full_rank.use_full_rank_interp' in user_params or 'growing.perturb_trust_region_step' in user_params)
 
+    exit_info = None
+    if scaling_within_bounds and np.shape(xl) == np.shape(xu) and np.min(xu - xl) <= 0.0:
+        # Cannot scale to [0,1] (would divide by zero or flip the interval): report as for any too-narrow gap
+        exit_info = ExitInformation(EXIT_INPUT_ERROR, "gap between lower and upper must be strictly positive to use scaling_within_bounds")
+        scaling_within_bounds = False
+
     scaling_changes = None
     if scaling_within_bounds:
         shift = xl.copy()
@@ -1015,7 +1021,6 @@ def solve(objfun, x0, h=None, lh=None, prox_uh=None, argsf=(), argsh=(), argspro
     xl = apply_scaling(xl, scaling_changes)
     xu = apply_scaling(xu, scaling_changes)
 
-    exit_info = None
     # Input & parameter checks
     if exit_info is None and h is not None:
         if prox_uh is None:
